@@ -262,6 +262,27 @@ def large_planted_tables(rng, n, kind, q=2, pairs=14):
     return L, R, planted
 
 
+# ----------------------------------------------------------------------------- ubiquitous token
+
+def ubiquitous_tables(n, rng):
+    """A long left table (n rows, beyond 2**14) in which ONE token occurs in (almost) every row -- a
+    posting list of more than 16384 entries -- against a handful of right rows; some left rows consist
+    of that token alone, some share it and one more token with a right row."""
+    lrows = []
+    special = set(rng.sample(range(1, n), 12))
+    sp = sorted(special)
+    for i in range(n):
+        if i in special:
+            k = sp.index(i)
+            lrows.append([i, ['inc', 'zenith%d inc' % (k % 3), 'inc zenith%d co' % (k % 3), 'zenith%d' % (k % 3)][k % 4]])
+        else:
+            lrows.append([i, 'u%d inc' % i])
+    rrows = [[0, 'zenith0 inc'], [1, 'inc'], [2, 'zenith1 inc co'], [3, 'other words'], [4, 'zenith2'], [5, 'inc co']]
+    L = T.table_spec(['id', 's'], lrows, dtypes={'s': 'object'})
+    R = T.table_spec(['id', 's'], rrows, dtypes={'s': 'object'})
+    return L, R
+
+
 # ----------------------------------------------------------------------------- huge records
 
 def huge_tail_tables(n_own, n_shared):
@@ -460,7 +481,11 @@ def random_tokenizer(rng, qgram_only=False, allow_bag=True):
 # strings strip them), case folding beyond ASCII, characters outside the BMP
 CONFUSABLE = [('caf\u00e9', 'cafe\u0301'), ('\u2126', '\u03a9'), ('\u212b', '\u00c5'), ('K', '\u212a'),
               ('x', 'x\x00'), ('ab', 'ab\x00\x00'), ('fi', '\ufb01'), ('a', '\uff41'), ('ss', '\u00df'),
-              ('i', '\u0131'), ('X', '\U0001d4b3'), ('e', 'e\u200b'), ('1', '\u00b9'), ('w\x00', 'z\x00')]
+              ('i', '\u0131'), ('X', '\U0001d4b3'), ('e', 'e\u200b'), ('1', '\u00b9'), ('w\x00', 'z\x00'),
+              # different tokens with the same CRC-32 / Adler-32 checksum (a checksum is not an identity)
+              ('cdqyyl', 'ucvoibs'), ('vodzmkg', 'aatkfg'), ('aaca', 'abab'),
+              # present strings that spell a missing value
+              ('nan', 'None'), ('NaN', 'null'), ('NA', '<NA>'), ('none', 'nan')]
 
 
 def _vocab(rng, size, unicode_rate=0.1):
@@ -494,6 +519,8 @@ def random_value(rng, tok, vocab, zipf, max_tokens):
             seps = [' ', '-', ', ', '!!']
         if r < 0.06:
             return ''
+        if r < 0.075 and kind in ('ws', 'delim'):
+            return rng.choice(['nan', 'None', 'NaN', 'nan', 'null', 'NA'])     # a present value, not a missing one
         if r < 0.10:
             return rng.choice(seps) * rng.randint(1, 3)        # delimiter-only
         if r < 0.125 and kind == 'delim' and ' ' not in seps:
@@ -667,6 +694,11 @@ def random_table_pair(rng, tok=None, max_rows=12, missing=0.1, dup_rate=0.2, ext
         else:
             index = ['r%d' % i for i in rng.sample(range(10 * n + 1), n)]
         out.append({'cols': cols, 'data': data, 'index': index, 'dtypes': dtypes})
+        r = rng.random()
+        if r < 0.04:
+            out[-1]['frame_class'] = 'user'          # a DataFrame subclass instance
+        elif r < 0.07:
+            out[-1]['dup_label'] = rng.choice(['note', 'zz', side + 'dupe'])
         if ik == 'keyname':
             out[-1]['index_name'] = side + 'id'
     return out[0], out[1], tok
@@ -772,6 +804,16 @@ def random_candset(rng, L, R, l_key, r_key, size=None, with_missing_ok=True, ext
                    index_kind=None):
     lk, rk = T.column(L, l_key), T.column(R, r_key)
     cross = [(a, b) for a in lk for b in rk]
+
+    def representable(k):
+        return isinstance(k, int) and not isinstance(k, bool) and float(k) == k and int(float(k)) == k
+    float_side = None
+    if rng.random() < 0.06:
+        # one id column will be float64 (ids read from a csv with a missing cell somewhere): only rows
+        # whose id on that side is exactly representable are referenced, so every value still
+        # identifies one key (2**61 does; the table may also hold 2**61 + 1)
+        float_side = rng.choice([0, 1])
+        cross = [p for p in cross if representable(p[float_side])]
     if not cross:
         pairs = []
     else:
@@ -829,7 +871,13 @@ def random_candset(rng, L, R, l_key, r_key, size=None, with_missing_ok=True, ext
         # key columns whose dtype differs from the tables' key dtype while the values match
         for c, keys in (('l_' + l_key, lk), ('r_' + r_key, rk)):
             r = rng.random()
-            if all(isinstance(k, int) and not isinstance(k, bool) and abs(k) < 2 ** 31 for k in keys):
+            used = data[c]
+            if used and float_side is not None and c == cols[1 + float_side] and all(representable(k) for k in used):
+                # a float64 id column (ids read from a csv with a missing cell somewhere): every id it
+                # holds is exactly representable, so the value identifies the key (2**61 is; its
+                # neighbour 2**61 + 1 in the table is another key)
+                dtypes[c] = 'float64'
+            elif all(isinstance(k, int) and not isinstance(k, bool) and abs(k) < 2 ** 31 for k in keys):
                 if r < 0.2:
                     dtypes[c] = 'int32'
                 elif r < 0.3:
